@@ -10,8 +10,8 @@ EXPLANATION = (
     "Decided structurally for every history: at each of the six sites that send a terminal ConsumerMessage the sender comes from consumers.remove(..), "
     "consumers.drain() or a removed/drained slot -- never from get -- so nothing can follow it and the queue disconnects when the sender goes out of scope; "
     "at the delivery sites it comes from get. Senders of ConsumerMessage are stored only in ChannelSlot.consumers and never cloned. Each arm sends the variant "
-    "the statement names (ordered arm scripts equal the oracle), CancelOk is queued iff the server's cancel was not nowait, the CancelOk arm answers the "
-    "caller before the terminal message, Consumer::cancel is idempotent through its flag and Drop calls it, basic_cancel is a synchronous Basic.Cancel with "
+    "the statement names (ordered arm scripts equal the oracle), CancelOk is queued iff the server's cancel was not nowait, every arm queues the terminal "
+    "messages before it releases the channel's caller (so no consumer can have been dropped yet and the send cannot fail: D12), Consumer::cancel is idempotent through its flag and Drop calls it, basic_cancel is a synchronous Basic.Cancel with "
     "the consumer's tag. Order relative to deliveries inside crossbeam (FIFO) is trusted.")
 ASSUMPTIONS = ["crossbeam_channel is FIFO and disconnects the receiver when the last sender is dropped"]
 RULE_TEXT = "obligations: one per terminal/delivery send site (sender provenance), per arm script, per clone/storage site, per cancel path row"
@@ -73,6 +73,26 @@ def _run_main(ctx):
         for key in (('Method', '0', 'connection', 'Close'), ('Method', '0', 'connection', 'CloseOk'), ('Method', 'n', 'channel', 'Close'),
                     ('Method', 'n', 'channel', 'CloseOk'), ('Method', 'n', 'basic', 'Cancel'), ('Method', 'n', 'basic', 'CancelOk')):
             A.check_script(ctx, r, arms, key)
+    with ctx.rule('R11.7', "terminal messages are queued before the channel's caller is released: a consumer cannot have been dropped yet, so the send cannot fail", floor=5) as r:
+        # A Consumer borrows its Channel, the Channel is !Sync, so consumers live on the one thread that uses the channel, and that
+        # thread can only finish dropping a consumer (Drop -> cancel() -> a synchronous call) after a message on slot.tx
+        # releases it. An arm that posts to slot.tx first races with that drop; send() turns the dead queue into
+        # EventLoopClientDropped, which ends the I/O thread and with it every other channel and consumer (no terminal message).
+        n = 0
+        for a in arms:
+            sends = a.calls('connection_state::send')
+            term = [c for c in sends if S.show(c.args[1]).startswith('consumer::ConsumerMessage::') and S.show(c.args[1])[len('consumer::ConsumerMessage::'):].split('(')[0] in TERMINAL]
+            reply = [c for c in sends if S.show(c.args[0]).endswith('.tx') and not S.show(c.args[1]).startswith('consumer::ConsumerMessage::')]
+            if not term or not reply:
+                continue
+            n += 1
+            key = a.keys[0][2] + '::' + a.keys[0][3] if a.keys[0][0] == 'Method' else a.keys[0][0]
+            first_reply = min(c.idx for c in reply)
+            late = [S.show(c.term)[:160] for c in term if c.idx > first_reply]
+            r.check('terminal-before-release:%s' % key, not late, ctx.site(D.PROCESS, reply[0].node), built=late,
+                    expected='every terminal ConsumerMessage of the arm is sent before the send to the slot\'s reply queue',
+                    why="releasing the caller first lets it drop the consumer before the terminal message is posted: the I/O thread then fails with EventLoopClientDropped and the whole connection dies")
+        r.check('arms-with-both', n == 5, ctx.site(D.PROCESS), built=n, expected='CancelOk, Channel.Close, Channel.CloseOk, Connection.Close, Connection.CloseOk')
     with ctx.rule('R11.5', 'cancel is idempotent, drop cancels, basic_cancel = Basic.Cancel{tag, nowait: false} awaiting CancelOk', floor=5) as r:
         rows = P.table(ctx, 'consumer::Consumer::cancel', ['self'])
         site = ctx.site('consumer::Consumer::cancel')
